@@ -398,6 +398,23 @@ Proof.
 Qed.
 End Proofs.
 
+(* the guard of add_row_margin is exactly the hypothesis [concrete] of the theorems above: a frame it accepts, all of whose
+   keys have one entry per level, has no 'All' among its labels *)
+Lemma accepted_is_concrete {V : Type} n (D : list (mkey * V)) :
+  has_all_label D = false -> (forall k, In k (map fst D) -> length k = n) -> forall k, In k (map fst D) -> pat_of k = repeat false n.
+Proof.
+  intros Hh Hlen k Hk. apply in_map_iff in Hk as [[k' v] [E Hin]]. cbn [fst] in E. subst k'.
+  assert (Hk : existsb (fun x : option Z => match x with None => true | Some _ => false end) k = false).
+  { destruct (existsb _ k) eqn:Ek; [|reflexivity]. exfalso.
+    assert (Ht : has_all_label D = true).
+    { unfold has_all_label. apply existsb_exists. exists (k, v). split; [exact Hin | exact Ek]. }
+    rewrite Ht in Hh. discriminate. }
+  rewrite <- (Hlen k) by (apply in_map_iff; exists (k, v); auto).
+  clear -Hk. unfold pat_of. induction k as [|x k IH]; [reflexivity|].
+  cbn [existsb] in Hk. apply orb_false_iff in Hk as [Hx Hk]. cbn [map length repeat]. f_equal; [|apply IH, Hk].
+  destruct x; [reflexivity|discriminate].
+Qed.
+
 (* non-vacuity: two levels, sparse combinations, margins for level 1 only, integer addition *)
 Example margins_example :
   let D := [([Some 0; Some 0], 1); ([Some 0; Some 1], 2); ([Some 1; Some 1], 4)]%Z in
